@@ -139,8 +139,8 @@ Proof. repeat split; apply perm_order_rev. Qed.
 
 (* {namespace <ns>} /** params */ {template .<t>} body {/template} *)
 Definition mk_file (fname ns full : string) (params body : list node) : sfile :=
-  {| sf_name := b fname; sf_text := b "source";
-     sf_body := [NNamespace 0 (b ns) 0; NSoyDoc 1 params; NTemplate 2 (b full) (NList 3 body) 0 false] |}.
+  {| sfile_name := b fname; sfile_text := b "source";
+     sfile_body := [NNamespace 0 (b ns) 0; NSoyDoc 1 params; NTemplate 2 (b full) (NList 3 body) 0 false] |}.
 Definition dref (p : N) (k : string) : node := NDataRef p (b k) [].
 Definition print (p : N) (e : node) : node := NPrint p e [].
 
@@ -149,7 +149,7 @@ Definition file_a : sfile := mk_file "a.soy" "a" "a.main" [NSoyDocParam 1 (b "x"
   [NCall 4 (b "b.leaf") false None [NParamValue 5 (b "v") (dref 6 "x")]].
 Definition file_b : sfile := mk_file "b.soy" "b" "b.leaf" [NSoyDocParam 1 (b "v") false] [print 4 (dref 5 "v")].
 
-Definition accepted {A} (r : cres A) : bool := match r with COk _ => true | CErr _ => false end.
+Definition accepted {A} (r : cresult A) : bool := match r with COk _ => true | CErr _ => false end.
 
 Example ex_accepted_both_orders :
   accepted (compile ns0 id_orders [] [SrcOk file_a; SrcOk file_b]) = true /\
@@ -222,7 +222,7 @@ Definition pinned_lookup (fs : list sfile) (name : bstr) : option bstr :=
   | inl _ => None
   end.
 Lemma pinned_duplicate_names_refuted : exists f g name,
-  pinned_lookup [f; g] name = Some (sf_name f) /\ pinned_lookup [g; f] name = Some (sf_name g) /\ sf_name f <> sf_name g.
+  pinned_lookup [f; g] name = Some (sfile_name f) /\ pinned_lookup [g; f] name = Some (sfile_name g) /\ sfile_name f <> sfile_name g.
 Proof.
   exists file_b, file_dup, (b "b.leaf"). split; [vm_compute; reflexivity|]. split; [vm_compute; reflexivity|]. vm_compute. discriminate.
 Qed.
